@@ -941,7 +941,7 @@ import queue as _queue
 
 C17_BREAK_CLASS = {
     "trip_path": "trip-unknown-path", "trip_service": "trip-unknown-service", "trip_uuid": "malformed-trip-uuid", "trip_path_uuid": "malformed-trip-path-uuid",
-    "trip_empty": "trip-without-stop-times", "trip_long": "trip-more-times-than-path-stops", "trip_short_dep": "trip-short-departure-array",
+    "trip_empty": "trip-without-stop-times", "trip_long": "trip-more-times-than-path-stops", "trip_long1": "trip-one-more-time-than-path-stops", "trip_single": "trip-with-a-single-stop-time", "trip_short_dep": "trip-short-departure-array",
     "trip_short_flags": "trip-short-flag-arrays", "line_agency": "line-unknown-agency", "line_mode": "line-unknown-mode", "line_file_missing": "deleted-line-file",
     "foot_unknown": "stop-file-unknown-stop", "foot_uuid": "malformed-footpath-uuid", "foot_short_time": "footpath-short-time-array",
     "foot_short_dist": "footpath-short-distance-array", "node_file_missing": "deleted-node-file", "path_node": "path-unknown-stop", "path_line": "path-unknown-line",
